@@ -50,9 +50,9 @@ func childStubs(text string) string {
 			}
 			seen[name] = true
 			if pre == "__c" || pre == "__pred" {
-				fmt.Fprintf(&sb, "\nfunc %s() bool { return false }", name)
+				fmt.Fprintf(&sb, "\nfunc %s(...any) bool { return false }", name)
 			} else {
-				fmt.Fprintf(&sb, "\nfunc %s() {}", name)
+				fmt.Fprintf(&sb, "\nfunc %s(...any) {}", name)
 			}
 		}
 	}
